@@ -34,6 +34,15 @@ fn check_one(m: &MRank, all: &[Card; 52], board: &[u8; 5], holes: &[(u8, u8)], p
         }
     };
     let classes: Vec<u16> = holes.iter().map(|(a, b)| m.class7(&[*a, *b, board[0], board[1], board[2], board[3], board[4]])).collect();
+    // everything read back from the showdown is subject code too: a panic there is an observation
+    let (holes2, board2, classes2) = (holes.to_vec(), *board, classes.clone());
+    match catch(std::panic::AssertUnwindSafe(move || inspect(&sd, &board2, &holes2, &classes2, prob))) {
+        Ok(v) => v,
+        Err(e) => Some(json!({"panic_while_reading_the_showdown": e})),
+    }
+}
+
+fn inspect(sd: &Showdown, board: &[u8; 5], holes: &[(u8, u8)], classes: &[u16], prob: f32) -> Option<Value> {
     let best = *classes.iter().min().unwrap_or(&0);
     let ps = sd.players();
     if ps.len() != holes.len() {
